@@ -295,29 +295,7 @@ func checkC06(ctx *Ctx) *Result {
 	}
 
 	// ---- R6.2 -----------------------------------------------------------
-	mt := ctx.MwTable()
-	if cf := p.Func(pkgRoot, "(*Middleware).Config"); cf == nil || mt.Funcs[funcName(cf)] == nil {
-		r.undecided("R6.2", "Config", "anchor not found")
-	} else {
-		bad := ""
-		for _, mp := range mt.Funcs[funcName(cf)].Paths {
-			var loaded, arg, res *Term
-			for _, e := range mp.Events {
-				if e.Kind == "load" && e.Field == mt.PtrFld {
-					loaded = e.Val
-				}
-				if e.Kind == "call" && e.Eff.Name == funcName(nc) && len(e.Eff.Args) == 1 {
-					arg, res = e.Eff.Args[0], e.Eff.Res
-				}
-			}
-			if loaded == nil || arg == nil || arg.Key() != loaded.Key() {
-				bad = "Config() does not render the configuration pointer it read under the lock"
-			} else if len(mp.Rets) != 1 || res == nil || mp.Rets[0].Key() != res.Key() {
-				bad = "Config() does not return the rendering's result"
-			}
-		}
-		r.check(bad == "", "R6.2", "Config() = newConfig(snapshot)", p.Pos(cf.Pos()), bad, 1)
-	}
+	configPlumbing(ctx, r, "R6.2")
 	if _, _, err := findBuilder(p); err != nil {
 		r.fail("R6.2", "constructors agree", "", err.Error())
 	} else {
@@ -325,6 +303,7 @@ func checkC06(ctx *Ctx) *Result {
 	}
 
 	wrapReturnsClosure(ctx, r, "R11.6")
+	maskedStateRule(ctx, r, "R6.7")
 	// ---- R6.3 -----------------------------------------------------------
 	wp, e1 := p.ConstInt(pkgOrigins, "wildcardPort")
 	po, e2 := p.ConstInt(pkgOrigins, "portOffset")
@@ -422,4 +401,36 @@ func vals(v int) []bool {
 		return []bool{false}
 	}
 	return []bool{false, true}
+}
+
+// configPlumbing: (*Middleware).Config returns, on every path, the result of
+// a newConfig call made in this very invocation on the pointer it read under
+// the lock (shared by C06 — what is rendered — and C12 — that it is fresh).
+func configPlumbing(ctx *Ctx, r *Result, rule string) {
+	p := ctx.P
+	nc := p.Func(pkgRoot, "newConfig")
+	mt := ctx.MwTable()
+	cf := p.Func(pkgRoot, "(*Middleware).Config")
+	if cf == nil || nc == nil || mt.Funcs[funcName(cf)] == nil {
+		r.undecided(rule, "Config", "anchor not found")
+		return
+	}
+	bad := ""
+	for _, mp := range mt.Funcs[funcName(cf)].Paths {
+		var loaded, arg, res *Term
+		for _, e := range mp.Events {
+			if e.Kind == "load" && e.Field == mt.PtrFld {
+				loaded = e.Val
+			}
+			if e.Kind == "call" && e.Eff.Name == funcName(nc) && len(e.Eff.Args) == 1 {
+				arg, res = e.Eff.Args[0], e.Eff.Res
+			}
+		}
+		if loaded == nil || arg == nil || arg.Key() != loaded.Key() {
+			bad = "Config() does not render the configuration pointer it read under the lock"
+		} else if len(mp.Rets) != 1 || res == nil || mp.Rets[0].Key() != res.Key() {
+			bad = "Config() does not return the rendering's result"
+		}
+	}
+	r.check(bad == "", rule, "Config() = newConfig(snapshot)", p.Pos(cf.Pos()), bad, 1)
 }
